@@ -124,13 +124,16 @@ class SimDisk:
     for part in [x for x in p.split('/') if x]:
       cur += '/' + part
       if cur in self.files:
-        raise FileExistsError(errno.EEXIST, 'File exists', cur)
+        if cur == p:
+          raise FileExistsError(errno.EEXIST, 'File exists', cur)
+        raise NotADirectoryError(errno.ENOTDIR, 'Not a directory', p)
       if cur not in self.dirs:
         self.tick('mkdir', cur)
         self.dirs.add(cur)
 
   def create(self, p):
     p = self.norm(p)
+    self._parents(p)
     if posixpath.dirname(p) not in self.dirs:
       raise FileNotFoundError(errno.ENOENT, 'No such file or directory', p)
     if p in self.dirs:
@@ -145,6 +148,9 @@ class SimDisk:
 
   def rename(self, a, b):
     a, b = self.norm(a), self.norm(b)
+    self._parents(b)
+    if (a in self.files or a in self.dirs) and posixpath.dirname(b) not in self.dirs:
+      raise FileNotFoundError(errno.ENOENT, 'No such file or directory', b)
     if a in self.files:
       if b in self.dirs:
         raise IsADirectoryError(errno.EISDIR, 'Is a directory', b)
@@ -167,6 +173,7 @@ class SimDisk:
 
   def remove(self, p):
     p = self.norm(p)
+    self._parents(p)
     if p in self.dirs:
       raise IsADirectoryError(errno.EISDIR, 'Is a directory', p)
     if p not in self.files:
@@ -193,8 +200,17 @@ class SimDisk:
     self.tick('rmdir', p)
     self.dirs.discard(p)
 
+  def _parents(self, p):
+    """ENOTDIR when a path component is a regular file."""
+    cur = ''
+    for part in [x for x in p.split('/') if x][:-1]:
+      cur += '/' + part
+      if cur in self.files:
+        raise NotADirectoryError(errno.ENOTDIR, 'Not a directory', p)
+
   def read(self, p):
     p = self.norm(p)
+    self._parents(p)
     if p in self.dirs:
       raise IsADirectoryError(errno.EISDIR, 'Is a directory', p)
     if p not in self.files:
@@ -320,6 +336,7 @@ class SimOS:
 
   def listdir(self, path='.'):
     p = self._d.norm(path)
+    self._d._parents(p)
     if p in self._d.files:
       raise NotADirectoryError(errno.ENOTDIR, 'Not a directory', p)
     if p not in self._d.dirs:
@@ -412,6 +429,9 @@ class SimGFile:
 
   def listdir(self, path):
     p = self._d.norm(path)
+    self._d._parents(p)
+    if p in self._d.files:
+      raise self._e.FailedPreconditionError(None, None, f'{p}; Not a directory')
     if p not in self._d.dirs:
       raise self._nf(p)
     return self._d.children(p)
@@ -452,6 +472,7 @@ class SimGFile:
   def remove(self, path):
     d = self._d
     p = d.norm(path)
+    d._parents(p)
     if p in d.dirs:
       raise self._e.FailedPreconditionError(None, None, f'{p}; Is a directory')
     if p not in d.files:
@@ -480,6 +501,29 @@ class SimGFile:
     if p not in d.files:
       raise self._nf(p)
     return SimGFile._Stat(len(d.files[p]), False)
+
+
+def _wrap_notdir(cls):
+  """gfile reports ENOTDIR situations (a path component is a regular file) as FailedPreconditionError."""
+  import functools
+
+  for name in ('GFile', 'listdir', 'makedirs', 'rename', 'copy', 'remove', 'rmtree', 'stat'):
+    fn = getattr(cls, name)
+
+    def make(fn):
+      @functools.wraps(fn)
+      def w(self, *a, **k):
+        try:
+          return fn(self, *a, **k)
+        except NotADirectoryError as e:
+          raise self._e.FailedPreconditionError(None, None, str(e)) from None
+
+      return w
+
+    setattr(cls, name, make(fn))
+
+
+_wrap_notdir(SimGFile)
 
 
 def tf_error_factory(tf_errors):
